@@ -7,17 +7,21 @@ From Coq Require Import String.
 From Coq Require Import List NArith ZArith Bool Arith Lia.
 Import ListNotations.
 From PV Require Import Regex Base AstDefs AstSpec AstImpl GenTables NodeModel Generator ClimbProofs GenParen GenBinop.
-From PV Require Import LexTables ParserTables LexerProofs TableProofs RoundTrip RoundTripGen RoundTripX GenExpr StmtTrip.
+From PV Require Import LexTables ParserTables LexerProofs TableProofs RoundTrip RoundTripGen RoundTripX GenExpr DeclTrip StmtTrip.
 Open Scope nat_scope.
 
 Section GS.
 Variable C : Type.
 Variable rp : bool.
+Variable dok : bool.
+Notation swf := (swfd dok).
+Notation swfl := (StmtTrip.swfl dok).
 Notation node := (value C).
 Notation embC := (embC C).
 Notation ptext := (ptext rp).
 
 Definition oembC (o: option ex) : node := match o with Some e => embC e | None => VNone end.
+Definition tdx (vs: list str) (x: str) : node := VNode C_TypeDecl [VStr x; VList []; VNone; VNode C_IdentifierType [VList (map (fun v => VStr v) vs)] None] None.
 Fixpoint embS (x: st) : node :=
   match x with
   | SExpr e => embC e
@@ -32,12 +36,13 @@ Fixpoint embS (x: st) : node :=
   | SFor i c n b => VNode C_For [oembC i; oembC c; oembC n; embS b] None
   | SBlock items => VNode C_Compound [match items with [] => VNone | _ => VList (map embS items) end] None
   | SLabel l b => VNode C_Label [VStr l; embS b] None
+  | SDecl ty x i => VNode C_Decl [VStr x; VList []; VList []; VList []; VList []; tdx (map snd ty) x; oembC i; VNone] None
   end.
 
 Definition ind (lv: Z) : str := repeat 32%N (Z.to_nat lv).
 Definition nl : str := [10%N].
 Definition isif (x: st) : bool := match x with SIf _ _ _ => true | _ => false end.
-Definition isexpr (x: st) : bool := match x with SExpr _ => true | _ => false end.
+Definition isexpr (x: st) : bool := match x with SExpr _ | SDecl _ _ _ => true | _ => false end.   (* gets a `;` from _generate_stmt *)
 Definition isblock (x: st) : bool := match x with SBlock _ => true | _ => false end.
 
 (* what _generate_stmt makes of the text v that visit printed for y, with the indentation string pre *)
@@ -64,6 +69,8 @@ Fixpoint vis (x: st) (lv: Z) : str :=
   | SFor i c n b => s "for (" ++ ot1 i ++ s ";" ++ ot2 c ++ s ";" ++ ot2 n ++ s ")" ++ nl ++ wrapg (ind (lv + 2)) b (vis b lv)
   | SBlock items => ind lv ++ s "{" ++ nl ++ concat_str (map (fun y => wrapg (ind (lv + 2)) y (vis y (lv + 2))) items) ++ ind lv ++ s "}" ++ nl
   | SLabel l b => l ++ s ":" ++ nl ++ wrapg (ind lv) b (vis b lv)
+  | SDecl ty x i => join_str (s " ") (map snd ty) ++ s " " ++ x ++
+                    match i with Some e => s " = " ++ (if iscomma e then s "(" ++ ptext e ++ s ")" else ptext e) | None => [] end
   end.
 Definition gst (lv: Z) (y: st) : str := wrapg (ind (lv + 2)) y (vis y lv).    (* _generate_stmt(y, add_indent=True) at level lv *)
 Definition gs0 (lv: Z) (y: st) : str := wrapg (ind lv) y (vis y lv).          (* _generate_stmt(y) at level lv *)
@@ -79,6 +86,7 @@ Fixpoint cost (x: st) : nat :=
   | SFor i c n b => 3 * osize i + 3 * osize c + 3 * osize n + cost b + 2
   | SBlock items => list_sum (map cost items) + 2
   | SLabel _ b => cost b + 2
+  | SDecl _ _ i => 3 * osize i + 8
   | _ => 2
   end.
 
@@ -102,7 +110,8 @@ Lemma gs_tail : forall f x lv pre v, visit C rp f (embS x) lv = GOk (v, lv) ->
    else if is_c C C_If (embS x) then gbind (visit C rp f (embS x)) (fun t => gret (pre ++ t))
    else gbind (visit C rp f (embS x)) (fun t => gret (pre ++ t ++ [10%N]))) lv = GOk (wrapg pre x v, lv).
 Proof.
-  intros f x lv pre v Hv. unfold wrapg. destruct x as [e| |o| | |l|c th el|c b|b c|i c nx b|items|lb b]; cbn [embS isexpr isif isblock] in *.
+  intros f x lv pre v Hv. unfold wrapg. destruct x as [e| |o| | |l|c th el|c b|b c|i c nx b|items|lb b|ty dx di]; cbn [embS isexpr isif isblock] in *.
+  13: { set (N := VNode C_Decl _ None) in *. change (stmt_with_semicolon C N) with true. cbv iota. unfold gbind. rewrite Hv. reflexivity. }
   - rewrite semi_emb. unfold gbind. rewrite Hv. reflexivity.
   - change (stmt_with_semicolon C (VNode C_EmptyStatement [] None)) with false. cbv iota.
     change (is_c C C_Compound (VNode C_EmptyStatement [] None)) with false. change (is_c C C_If (VNode C_EmptyStatement [] None)) with false. cbv iota.
@@ -201,8 +210,41 @@ Proof.
   unfold gbind at 1. rewrite (H y (or_introl eq_refl)). unfold gbind at 1. rewrite IH by (intros z Hz; apply H; right; exact Hz). reflexivity.
 Qed.
 
-Lemma swfl_in : forall (l: list st) y, swfl l -> In y l -> swf y.
+Lemma swfl_in : forall (l: list st) y, swfl l -> In y l -> bwfd dok y.
 Proof. induction l as [|z r IH]; intros y Hw Hy; [destruct Hy|]. destruct Hw as [Hz Hr]. destruct Hy as [->|Hy]; [exact Hz|apply IH; assumption]. Qed.
+
+(* visit_Decl on `T x` / `T x = e`: _generate_decl, _generate_type on the TypeDecl, the initializer through _visit_expr *)
+Lemma gen_tdx : forall f vs x em st, x <> [] -> generate_type C rp (S (S f)) (tdx vs x) [] em st =
+  GOk (join_str (s " ") vs ++ (if em then s " " ++ x else []), st).
+Proof.
+  intros f vs x em st Hx. destruct x as [|x0 xr]; [congruence|].
+  change (generate_type C rp (S (S f)) (tdx vs (x0 :: xr)) [] em st) with
+    (gbind (join_strs C (s " ") (VList (map (fun v => VStr v) vs))) (fun ts0 =>
+       gbind (if em then gret (x0 :: xr) else gret []) (fun nstr0 =>
+       gret (ts0 ++ (match nstr0 with [] => [] | _ => s " " ++ nstr0 end)))) st).
+  unfold gbind at 1. unfold join_strs, join_list. unfold gbind at 1. rewrite strs_of_strs. unfold gret at 1.
+  destruct em; unfold gbind, gret; cbn [app]; rewrite ?app_nil_r; reflexivity.
+Qed.
+
+Lemma visit_declS : forall ty x i, x <> [] -> owf i -> forall fuel lv, 3 * osize i + 8 <= fuel ->
+  visit C rp fuel (embS (SDecl ty x i)) lv = GOk (vis (SDecl ty x i) lv, lv).
+Proof.
+  intros ty x i Hx Hi fuel lv Hf. do 5 (destruct fuel as [|fuel]; [lia|]). cbn [embS].
+  set (T := tdx (map snd ty) x).
+  change (visit C rp (S (S (S (S (S fuel))))) (VNode C_Decl [VStr x; VList []; VList []; VList []; VList []; T; oembC i; VNone] None) lv) with
+    (gbind (gbind (gbind (generate_type C rp (S (S fuel)) T [] true) (fun t => gret ([] ++ [] ++ [] ++ t))) (fun x0 => gret (VStr x0))) (fun s0 =>
+     gbind (gret s0) (fun s1 =>
+     gbind (if truthy_v C (oembC i) then gbind (as_str C s1) (fun a => gbind (visit_expr C rp (S (S (S fuel))) (oembC i)) (fun x1 => gret (VStr (a ++ s " = " ++ x1)))) else gret s1) (fun s2 =>
+     as_str C s2))) lv).
+  unfold T. unfold gbind at 1. unfold gbind at 1. unfold gbind at 1. rewrite (gen_tdx fuel (map snd ty) x true lv Hx).
+  unfold gret at 1. unfold gret at 1. cbn [app]. unfold gbind at 1. unfold gret at 1.
+  destruct i as [e|]; cbn [oembC vis osize owf] in *.
+  - rewrite truthy_emb. unfold gbind at 1. unfold gbind at 1. unfold as_str at 1. unfold gret at 1.
+    rewrite visit_expr_emb.
+    assert (HE: visit C rp (S (S fuel)) (embC e) lv = GOk (ptext e, lv)) by (apply (visit_prints_x C rp (size e) e (le_n _) Hi); lia).
+    destruct (iscomma e); unfold gbind; rewrite HE; unfold gret, as_str; rewrite <- ?app_assoc; reflexivity.
+  - unfold gbind, gret, as_str. rewrite app_nil_r. reflexivity.
+Qed.
 
 Lemma in_csum : forall (l: list st) a, In a l -> cost a <= list_sum (map cost l).
 Proof.
@@ -217,7 +259,7 @@ Proof.
   { intros y f Hy Hwy Hfy. destruct f as [|f]; [lia|]. apply gs_run_t. apply IH; [exact Hy|exact Hwy|lia]. }
   assert (HE: forall e f, wf e -> 3 * size e <= f -> visit C rp f (embC e) lv = GOk (ptext e, lv)).
   { intros e f He Hfe. exact (visit_prints_x C rp (size e) e (le_n _) He f lv Hfe). }
-  destruct x as [e| |o| | |l|c th el|c b|b c|i c nx b|items|lb b]; cbn [ssize] in Hn; cbn [swf] in Hw; cbn [cost] in Hf; cbn [embS].
+  destruct x as [e| |o| | |l|c th el|c b|b c|i c nx b|items|lb b|ty dx di]; cbn [ssize] in Hn; cbn [swfd] in Hw; cbn [cost] in Hf; cbn [embS]; [| | | | | | | | | | | |contradiction].
   - apply HE; [exact Hw|lia].
   - destruct fuel as [|fu]; [lia|]. reflexivity.
   - destruct fuel as [|fu]; [lia|]. rewrite visit_return. destruct o as [e|]; cbn [oembC osize owf] in *; [|reflexivity].
@@ -255,9 +297,11 @@ Proof.
     + set (items := y0 :: r0) in *. change (truthy_v C (VList (map embS items))) with true. cbv iota.
       unfold gbind at 1. unfold gbind at 1. unfold as_list at 1. unfold gret at 1. unfold gbind at 1.
       assert (HM: mapM (fun x => generate_stmt C rp fu x false) (map embS items) (lv + 2)%Z = GOk (map (gs0 (lv + 2)) items, (lv + 2)%Z)).
-      { apply mapM_gs. intros y Hy. assert (Hwy: swf y) by (exact (swfl_in items y Hw Hy)).
+      { apply mapM_gs. intros y Hy. assert (Hwy: bwfd dok y) by (exact (swfl_in items y Hw Hy)).
         pose proof (in_ssum items y Hy) as Hsy. pose proof (in_csum items y Hy) as Hcy.
-        destruct fu as [|fu']; [lia|]. apply gs_run_f. apply IH; [lia|exact Hwy|lia]. }
+        destruct fu as [|fu']; [lia|]. apply gs_run_f.
+        destruct y as [e| |o| | |l|c th el|c b|b c|i c nx b|items2|lb b|ty dx di]; try (apply IH; [lia|exact Hwy|lia]).
+        cbn [bwfd] in Hwy. destruct Hwy as (_ & _ & _ & Hi & Hx). apply visit_declS; [exact Hx|exact Hi|cbn [cost] in Hcy; lia]. }
       rewrite HM. unfold gret at 1. unfold gbind at 1. unfold add_indent at 1. replace (lv + 2 + -2)%Z with lv by lia.
       unfold gbind at 1. unfold make_indent, get_indent. unfold gbind at 1. unfold gret. cbn [vis]. reflexivity.
   - (* label *)
@@ -291,6 +335,7 @@ Fixpoint sexprs (Q: ex -> Prop) (x: st) : Prop :=
   | SFor i c n b => oall Q i /\ oall Q c /\ oall Q n /\ sexprs Q b
   | SLabel l b => despace2 l = l /\ sexprs Q b
   | SBlock items => (fix al (l: list st) : Prop := match l with [] => True | y :: r => sexprs Q y /\ al r end) items
+  | SDecl ty x i => despace2 x = x /\ Forall (fun kv : kind * str => despace2 (snd kv) = snd kv) ty /\ oall Q i
   | _ => True
   end.
 Definition sexprsl (Q: ex -> Prop) (l: list st) : Prop :=
@@ -323,6 +368,15 @@ Proof.
   intros rp f items. induction items as [|y r IH]; intros H; [reflexivity|]. cbn [map concat_str concat].
   rewrite despace2_app, spell_app, (H y (or_introl eq_refl)), IH by (intros z Hz; apply H; right; exact Hz). reflexivity.
 Qed.
+Lemma despace2_join : forall ty, Forall (fun kv : kind * str => despace2 (snd kv) = snd kv) ty ->
+  despace2 (join_str (s " ") (map snd ty)) = spell ty.
+Proof.
+  induction ty as [|[k v] r IH]; intros H; [reflexivity|]. inversion H as [|x y Hv Hr]; subst x y. cbn [snd] in Hv.
+  cbn [map snd join_str]. destruct r as [|[k2 v2] r2].
+  - cbn [map]. rewrite Hv. unfold spell. cbn. rewrite app_nil_r. reflexivity.
+  - change (map snd ((k2, v2) :: r2)) with (v2 :: map snd r2) in *. cbn [join_str] in *.
+    rewrite !despace2_app, Hv. rewrite spell_cons. f_equal. change (despace2 (s " ")) with (@nil N). cbn [app]. apply IH. exact Hr.
+Qed.
 Lemma sexprsl_in : forall Q (l: list st) y, sexprsl Q l -> In y l -> sexprs Q y.
 Proof. intros Q. induction l as [|z r IH]; intros y Hw Hy; [destruct Hy|]. destruct Hw as [Hz Hr]. destruct Hy as [->|Hy]; [exact Hz|apply IH; assumption]. Qed.
 
@@ -334,7 +388,11 @@ Proof.
   { intros y L L' Hy Hsy. rewrite wrapg_text by apply despace2_ind. apply IH; assumption. }
   assert (HG: forall y L, ssize y <= n -> sexprs (eok rp) y -> despace2 (wrapg (ind (L + 2)) y (vis rp y L)) = spell (stoks rp y)).
   { intros y L. apply HG0. }
-  destruct x as [e| |o| | |l|c th el|c b|b c|i c nx b|items|lb b]; cbn [ssize] in Hn; cbn [sexprs] in Hx; unfold vt; cbn [isexpr stoks vis].
+  destruct x as [e| |o| | |l|c th el|c b|b c|i c nx b|items|lb b|ty dx di]; cbn [ssize] in Hn; cbn [sexprs] in Hx; unfold vt; cbn [isexpr stoks vis].
+  13: { destruct Hx as (Hdx & Hty & Hdi). unfold dtoks. rewrite spell_app, spell_cons, spell_app. rewrite !despace2_app, (despace2_join ty Hty), Hdx.
+        change (despace2 (s " ")) with (@nil N). cbn [app]. rewrite <- !app_assoc. f_equal. f_equal. f_equal.
+        destruct di as [e|]; cbn [oall] in Hdi; [|reflexivity]. rewrite spell_cons. unfold argt, vx.
+        destruct (iscomma e); rewrite ?despace2_app, ?spell_parkv, (eok_text rp e Hdi); reflexivity. }
   - rewrite despace2_app, spell_app, (eok_text rp e Hx). reflexivity.
   - reflexivity.
   - destruct o as [e|]; cbn [oall oxt] in *; [|reflexivity]. rewrite !despace2_app, (eok_text rp e Hx). unfold kw. rewrite spell_cons, spell_app. reflexivity.
@@ -403,3 +461,49 @@ Example label_example :
 }
 ".
 Proof. split; [cbn; repeat split; solve [reflexivity | discriminate | lia]|]. eexists. split; [vm_compute; reflexivity|split; vm_compute; reflexivity]. Qed.
+
+(* ---- the two instances: statements without declarations, and statements whose blocks declare objects ---- *)
+Theorem gst_prints_nodecl : forall (C: Type) rp (x: st), swf x -> forall fuel lv, cost x < fuel ->
+  generate_stmt C rp fuel (embS C x) true lv = GOk (gst rp lv x, lv).
+Proof. intros C rp. exact (gst_prints C rp false). Qed.
+Theorem gst_prints_decls : forall (C: Type) rp (x: st), swfD x -> forall fuel lv, cost x < fuel ->
+  generate_stmt C rp fuel (embS C x) true lv = GOk (gst rp lv x, lv).
+Proof. intros C rp. exact (gst_prints C rp true). Qed.
+
+(* declarations in blocks: `{ int x = 1; unsigned long y; y = x + 2; { char c = (x, y); } }` *)
+Definition ex_d : st :=
+  SBlock [SDecl [(K_INT, s2l "int")] (s2l "x") (Some (XConst K_INT_CONST_DEC (s2l "1") (s2l "int")));
+          SDecl [(K_UNSIGNED, s2l "unsigned"); (K_LONG, s2l "long")] (s2l "y") None;
+          SExpr (XAsg (s2l "=") (XId (s2l "y")) (XBin (s2l "+") (XId (s2l "x")) (XConst K_INT_CONST_DEC (s2l "2") (s2l "int"))));
+          SBlock [SDecl [(K_CHAR, s2l "char")] (s2l "c") (Some (XComma [XId (s2l "x"); XId (s2l "y")]))]].
+Example decl_example :
+  swfD ex_d /\ exists t, generate_stmt nat false 80 (embS nat ex_d) true 0%Z = GOk (t, 0%Z) /\ despace2 t = spell (stoks false ex_d) /\
+  t = s2l "{
+  int x = 1;
+  unsigned long y;
+  y = x + 2;
+  {
+    char c = (x, y);
+  }
+}
+".
+Proof. split; [cbn; repeat split; solve [reflexivity | discriminate | lia | repeat constructor]|]. eexists. split; [vm_compute; reflexivity|split; vm_compute; reflexivity]. Qed.
+
+(* ... and the whole-parser model, started on exactly these tokens (followed by one more `;`) with its initial scope stack,
+   returns the tree the text was generated from, consumes the 27 tokens and is back at the file scope afterwards *)
+From PV Require ParserBase ParserMain.
+Definition ex_d_state : ParserBase.pstate nat :=
+  ParserMain.init_pstate nat (map (fun kv => ParserBase.PTok nat (fst kv) (snd kv) 0 0) (stoks false ex_d ++ [(K_SEMI, s2l ";")])) 0 0.
+Example decl_example_parsed :
+  StreamLib.NoTD (ParserBase.scopes nat ex_d_state) /\
+  match ParserMain.p_statement nat 100 ex_d_state with
+  | ParserBase.Ok (N, s') => RoundTrip.strip N = embs ex_d /\ ParserBase.idx nat s' = length (stoks false ex_d) /\ ParserBase.scopes nat s' = [[]]
+  | _ => False
+  end.
+Proof. split; [split; [discriminate|repeat constructor]|]. vm_compute. repeat split. Qed.
+Example decl_example_both :
+  swfD ex_d /\ (exists t, generate_stmt nat false 80 (embS nat ex_d) true 0%Z = GOk (t, 0%Z) /\ despace2 t = spell (stoks false ex_d)) /\
+  match ParserMain.p_statement nat 100 ex_d_state with ParserBase.Ok (N, s') => RoundTrip.strip N = embs ex_d | _ => False end.
+Proof.
+  destruct decl_example as [H [t [H1 [H2 _]]]]. split; [exact H|]. split; [exists t; split; assumption|]. vm_compute. reflexivity.
+Qed.
